@@ -1556,10 +1556,11 @@ Theorem T02i_inline_math_partial : forall W pre y v mid z ln post,
 Proof. exact inl_partial. Qed.
 Print Assumptions T02i_inline_math_partial.
 
-(* F02idx-6: a call inside the value runs twice *)
-Theorem T02i_inline_math_twice_refuted : exists W p, obs (run_i W (inl p)) <> obs (run_i W p).
-Proof. exact inl_twice_refuted. Qed.
-Print Assumptions T02i_inline_math_twice_refuted.
+(* F02idx-6, the rule before 0eb93cc: a call inside the value runs twice; the repaired rule leaves the module alone *)
+Theorem T02i_old_inline_math_twice_refuted :
+  exists W p, inl p = p /\ obs (run_i W (inl_before_0eb93cc p)) <> obs (run_i W p).
+Proof. exact inl_before_0eb93cc_refuted. Qed.
+Print Assumptions T02i_old_inline_math_twice_refuted.
 
 (* F02idx-7: the iterator the value is computed from is used up by the first evaluation *)
 Theorem T02i_inline_math_used_up_refuted : exists W p, obs (run_i W (inl p)) <> obs (run_i W p).
